@@ -509,6 +509,7 @@ func (z *ioDecReader) jsonReadNum() (bs []byte, token byte) {
 		if pos == z.wc {
 			if z.done {
 				end = pos
+				token = 0 // EOF before the next token
 				goto END
 			}
 			numshift, numread := z.fillbuf(0)
@@ -516,6 +517,7 @@ func (z *ioDecReader) jsonReadNum() (bs []byte, token byte) {
 			pos -= numshift
 			if numread == 0 {
 				end = pos
+				token = 0 // EOF before the next token
 				goto END
 			}
 		}
